@@ -124,36 +124,53 @@ def _extend(rng):
     return [], f"[ {jsxtag(rng)} {x} ]"
 
 
-def wnode(rng, d, top=False):
-    """a value the walk / the visitor can meet: any prop value or child, tagifiable objects with recorded expansions"""
+def wnode(rng, d, top=False, clean=False, prop=False):
+    """a value the walk / the visitor can meet: any prop value or child, tagifiable objects with recorded expansions.
+    `clean`: mostly values the renderer's fragment covers (no object whose `str()` the universe does not have as a prop value,
+    no name with `_`), for the lines of `tagify`; `prop`: the value is a prop value"""
     r = rng.random()
     if d <= 0 or (not top and r < 0.25):
         q = rng.random()
         if q < 0.45:
             return c20.strlike(rng)
-        if q < 0.7:
+        if q < 0.7 and not (clean and prop and rng.random() < 0.9):
             return rng.choice(["O MetadataNode [ id I 1 ]", "O MetadataNode [ id I 2 ]", "O HTMLDependency [ name S " + es("dep") + " ]"])
-        if q < 0.9:
-            return c20.scalar(rng)
+        if q < 0.9 or clean:
+            return c20.scalar(rng) if not clean else rng.choice(["N", "T", "I 3", "D " + es("1.5"), S("x y"), J("() => 1"), S('a"b')])
         return rng.choice(["O Other [ ]", "L [ " + S("a") + " ]", "M [ " + es("k") + " I 1 ]", "M [ " + es("on_click") + " I 1 ]",
                            "O TagList [ data L [ " + S("t") + " ] ]", "U [ ]"])
     if r < 0.5:
         ks = rng.sample(["id", "className", "data-x", "style", "x-", "p", "q"], rng.choice([0, 1, 2, 3]))
-        attrs = "M [ " + "".join(es(k) + " " + (wnode(rng, d - 1) if rng.random() < 0.6 else c20.jval(rng, 1)) + " " for k in ks) + "]"
+
+        def pv(k):
+            if clean and k == "style":
+                return c20.style_val(rng, 1) if rng.random() < 0.7 else wnode(rng, d - 1, clean=True, prop=True)
+            if rng.random() < 0.6:
+                return wnode(rng, d - 1, clean=clean, prop=True)
+            return c20.jval(rng, 1) if not clean else rng.choice(["N", "F", "I 7", S("v"), "L [ I 1 " + S("a") + " ]", "M [ " + es("k") + " I 1 ]"])
+        attrs = "M [ " + "".join(es(k) + " " + pv(k) + " " for k in ks) + "]"
         if rng.random() < 0.05:
-            attrs = "M [ " + es("on_click") + " " + wnode(rng, d - 1) + " ]"     # Lean: unsupported (copy / setitem rename it)
-        kids = "".join(wnode(rng, d - 1) + " " for _ in range(rng.choice([0, 1, 2, 3])))
+            attrs = "M [ " + es("on_click") + " " + wnode(rng, d - 1, clean=clean, prop=True) + " ]"     # Lean: unsupported (copy / setitem rename it)
+        kids = "".join(wnode(rng, d - 1, clean=clean) + " " for _ in range(rng.choice([0, 1, 2, 3])))
         return f"O JSXTag [ name {S(rng.choice(['Foo', 'a.B']))} attrs {attrs} children O TagList [ data L [ {kids}] ] ]"
     if r < 0.75:
-        kids = "".join(wnode(rng, d - 1) + " " for _ in range(rng.choice([0, 1, 2, 3])))
+        kids = "".join(wnode(rng, d - 1, clean=clean) + " " for _ in range(rng.choice([0, 1, 2, 3])))
         return (f"O Tag [ name {S(rng.choice(['div', 'span']))} attrs {c20.tag_attrs(rng)} children O TagList [ data L [ {kids}] ] "
                 f"add_ws {rng.choice(['T', 'F'])} ]")
     q = rng.random()
-    if q < 0.75:
-        return f"O TagifiableObj [ tagify {wnode(rng, d - 1)} ]"
+    if q < 0.75 or clean and q < 0.95:
+        return f"O TagifiableObj [ tagify {wnode(rng, d - 1, clean=clean, prop=prop)} ]"
     if q < 0.9:
-        return "O TagifiableObj [ tagify O TagList [ data L [ " + "".join(wnode(rng, d - 1) + " " for _ in range(rng.choice([0, 1, 2]))) + "] ] ]"
+        return "O TagifiableObj [ tagify O TagList [ data L [ " + "".join(wnode(rng, d - 1, clean=clean) + " " for _ in range(rng.choice([0, 1, 2]))) + "] ] ]"
     return "O TagifiableObj [ tagify " + rng.choice(["N", "I 3", "L [ ]"]) + " ]"
+
+
+def tagify_self(rng):
+    for _ in range(50):
+        x = wnode(rng, rng.choice([1, 2, 3]), top=True, clean=rng.random() < 0.85)
+        if x.startswith("O JSXTag"):
+            return x
+    return "O JSXTag [ name S " + es("Foo") + " attrs M [ ] children O TagList [ data L [ ] ] ]"
 
 
 def md_list(rng):
@@ -171,6 +188,12 @@ C20B_GENS = {
     "JSXTag_extendC20b": _extend,
     "JSXTag_appendC20b": lambda rng: ([], f"[ {jsxtag(rng)} U [ {''.join(k + ' ' for k in children(rng))}] ]"),
     "JSXTag_copyC20b": lambda rng: ([], f"[ {jsxtag(rng)} ]"),
+    "lib_dependencyC20b": lambda rng: ([], f"[ {rng.choice([S('react'), S('react-dom')] * 4 + [S('vue'), S(''), S('react_dom')] + c20.extra()[:3] + ['N', J('react'), H('react')])} "
+                                           + rng.choice(["M [ " + es("src") + " " + S(rng.choice(["a.js", "react.production.min.js", ""])) + " ]", "M [ ]", "N",
+                                                         "L [ M [ " + es("src") + " " + S("a.js") + " ] ]", "L [ ]", S("a.js"), "L [ I 1 ]", "I 3",
+                                                         "M [ " + es("href") + " " + S("a.js") + " ]",
+                                                         "M [ " + es("src") + " " + S("a.js") + " " + es("defer") + " " + S("") + " ]"]) + " ]"),
+    "JSXTag_tagifyC20b": lambda rng: ([], f"[ {tagify_self(rng)} ]"),
     "JSXTag_tagify_visitorC20b": lambda rng: ([], f"[ {md_list(rng)} {wnode(rng, rng.choice([0, 1, 2]), top=rng.random() < 0.6)} ]"),
     "walk_attrs_and_childrenC20b": lambda rng: ([], f"[ {wnode(rng, rng.choice([1, 2, 3, 4]), top=rng.random() < 0.8)} {md_list(rng)} ]"),
 }
@@ -183,13 +206,38 @@ def register(GENS):
             GENS[f] = (lambda g: lambda rng: g(rng)[1])(g)
 
 
+_VERS = None
+
+
+def versions_table() -> str:
+    """what `packaging` answers for the version strings of `_versions.py` (and a few others): `[ (raw str(Version(raw)))… ]`, the
+    strings it refuses left out"""
+    global _VERS
+    if _VERS is None:
+        from packaging.version import InvalidVersion, Version
+        raws = ["17.0.2", "1.0", "01.0", "x"]
+        try:
+            from htmltools._versions import versions
+            raws = [v for v in versions.values() if isinstance(v, str)] + raws
+        except Exception:  # noqa: BLE001
+            pass
+        rows = []
+        for r in dict.fromkeys(raws):
+            try:
+                rows.append((r, str(Version(r))))
+            except InvalidVersion:
+                pass
+        _VERS = "[ " + "".join(es(a) + " " + es(b) + " " for a, b in rows) + "]"
+    return _VERS
+
+
 def lines_c20b(rng, funcs: list[str], n: int) -> list[str]:
     out = []
     for f in funcs:
         seen = set()
         for _ in range(n):
             tbl, args = C20B_GENS[f](rng)
-            l = "srcc20b [ " + "".join(es(a) + " " + es(b) + " " for a, b in tbl) + f"] {f} {args}"
+            l = "srcc20b [ " + "".join(es(a) + " " + es(b) + " " for a, b in tbl) + f"] {versions_table()} {f} {args}"
             if l not in seen:
                 seen.add(l)
                 out.append(l)
